@@ -1,3 +1,72 @@
-Require Import Base Opcode Tables Ops Tree Opt Flat Run.
-Example placeholder_C16 : True. Proof. exact I. Qed.
-Print Assumptions placeholder_C16.
+(* C16 — Reordering is cost-directed, stable and confined to and/or operands.
+   Only statements; proofs in Proofs/Reorder.v. The Go side (sort.SliceStable over float64 costs) is tied to
+   `reorder` by comparing Go's optimised tree with the model's on every run (integer-valued costs). *)
+Require Import Base Opcode Tables Ops Tree Opt Reorder.
+From Coq Require Import Permutation.
+Open Scope Z_scope.
+
+(* confined: an operator keeps its name, its fast mark and the multiset of its operands; only and/or aliases are
+   permuted; `if` and leaves are untouched — for ANY sorting function that returns a permutation (which covers
+   NaN/Inf costs, where the float comparator is inconsistent) *)
+Theorem C16_confined : forall sorter, (forall l, Permutation (sorter l) l) -> forall name fast cs,
+  exists cs', reorder_with sorter (TOp name fast cs) = TOp name fast cs' /\
+              Permutation cs' (map (reorder_with sorter) cs) /\
+              (is_boolop name = false -> cs' = map (reorder_with sorter) cs).
+Proof. exact reorder_op. Qed.
+Theorem C16_if_untouched : forall sorter c t f,
+  reorder_with sorter (TIf c t f) = TIf (reorder_with sorter c) (reorder_with sorter t) (reorder_with sorter f).
+Proof. exact reorder_if. Qed.
+
+(* the sort used (stable insertion sort by cost; the stable sorted permutation is unique for a total preorder):
+   a permutation, ascending in cost, operands of equal cost keep source order *)
+Theorem C16_sort_perm : forall key l, Permutation (sort_by key l) l.
+Proof. exact sort_perm. Qed.
+Theorem C16_sort_ascending : forall key l a b, before (sort_by key l) a b -> key a <= key b.
+Proof. exact sort_sorted. Qed.
+Theorem C16_sort_stable : forall key l a b, before (sort_by key l) a b -> key a = key b -> before l a b.
+Proof. exact sort_stable. Qed.
+Theorem C16_equal_cost_keeps_order : forall key l a b, before l a b -> key a = key b -> before (sort_by key l) a b.
+Proof. exact sort_keeps_equal. Qed.
+Theorem C16_cheaper_first : forall key l a b, In a l -> In b l -> key a < key b -> before (sort_by key l) a b.
+Proof. exact sort_orders. Qed.
+
+(* raising the configured cost of a name x (not one of the two default keys) *)
+Theorem C16_cost_monotone : forall cfg x,
+  str_eqb x (ss cost_variable_key) = false /\ str_eqb x (ss cost_operator_key) = false ->
+  forall c1 c2, c1 <= c2 -> forall t,
+    cost (set_cost cfg x c1) t <= cost (set_cost cfg x c2) t /\
+    (mentions x t = false -> cost (set_cost cfg x c1) t = cost (set_cost cfg x c2) t).
+Proof. exact cost_monotone. Qed.
+(* ... never moves an operand mentioning x ahead of a sibling that does not *)
+Theorem C16_raise_never_moves_ahead : forall cfg x,
+  str_eqb x (ss cost_variable_key) = false /\ str_eqb x (ss cost_operator_key) = false ->
+  forall c1 c2 l a b, c1 <= c2 -> mentions x a = true -> mentions x b = false ->
+  before (sort_by (cost (set_cost cfg x c2)) l) a b -> before (sort_by (cost (set_cost cfg x c1)) l) a b.
+Proof. exact raise_never_moves_ahead. Qed.
+(* ... leaves the relative order of siblings not mentioning x alone *)
+Theorem C16_others_keep_order : forall cfg x,
+  str_eqb x (ss cost_variable_key) = false /\ str_eqb x (ss cost_operator_key) = false ->
+  forall c1 c2 l a b, c1 <= c2 -> mentions x a = false -> mentions x b = false ->
+  (before (sort_by (cost (set_cost cfg x c1)) l) a b <-> before (sort_by (cost (set_cost cfg x c2)) l) a b).
+Proof. exact others_keep_order. Qed.
+(* ... and with a sufficiently large cost every operand mentioning x comes after every sibling that does not *)
+Theorem C16_large_cost_last : forall cfg x,
+  str_eqb x (ss cost_variable_key) = false /\ str_eqb x (ss cost_operator_key) = false ->
+  forall a b, mentions x a = true -> mentions x b = false ->
+  exists C, forall c, C <= c -> forall l, In a l -> In b l -> before (sort_by (cost (set_cost cfg x c)) l) b a.
+Proof. exact large_cost_last. Qed.
+
+(* non-vacuity *)
+Definition cfg0 : config := {| enabled := []; stateless := []; registered := []; costs := []; events := false |}.
+Example C16_ex :
+  reorder cfg0 (TOp (ss "and") false [TOp (ss "=") false [TVar (ss "a") 1; TConst (VInt 1)]; TVar (ss "b") 2; TConst (VBool true); TVar (ss "c") 3])
+  = TOp (ss "and") false [TConst (VBool true); TVar (ss "b") 2; TVar (ss "c") 3; TOp (ss "=") false [TVar (ss "a") 1; TConst (VInt 1)]]
+  /\ reorder (set_cost cfg0 (ss "b") 1000) (TOp (ss "and") false [TVar (ss "b") 2; TVar (ss "c") 3; TVar (ss "a") 1])
+  = TOp (ss "and") false [TVar (ss "c") 3; TVar (ss "a") 1; TVar (ss "b") 2]
+  /\ reorder cfg0 (TOp (ss "+") false [TOp (ss "*") false [TVar (ss "a") 1; TConst (VInt 2)]; TConst (VInt 1)])
+  = TOp (ss "+") false [TOp (ss "*") false [TVar (ss "a") 1; TConst (VInt 2)]; TConst (VInt 1)].
+Proof. vm_compute. repeat split. Qed.
+
+Print Assumptions C16_sort_stable.
+Print Assumptions C16_raise_never_moves_ahead.
+Print Assumptions C16_large_cost_last.
